@@ -47,6 +47,20 @@ CHECKS = {
             "simulator and the Pasqal request body/result decoding are checked against plain-Python bit bookkeeping.",
             "Vendor gate semantics as quoted in vf/refmodel/ionq_reader.py / aqt_reader.py (pauliexp string order inferred from the "
             "serializer's comment and literal test expectations); fake endpoints model the services.", "DESIGN.md 5/C17"),
+    "C05": ("exploration", "offline history checker over uniquely tagged operations after every public Circuit edit + fresh-rebuild query comparison",
+            "Random edit histories (every constructor path; append/insert with all five strategies and clamped indices, whole "
+            "moments, insert_into_range, insert_at_frontier, batch_insert/_into/_remove/_replace incl. failing all-or-nothing "
+            "edits, clear_operations_touching, item and slice assignment/deletion, +, *, zip, concat_ragged, transform_qubits, "
+            "copy/freeze/unfreeze/with_tags/slicing followed by further edits) over operations that overlap on qubits, "
+            "measurement keys and control keys. After every call: moments are well-formed and their cached qubit/key sets equal a "
+            "recomputation; the multiset of operation ids is conserved; conflicting pairs keep the order the edit prescribes "
+            "(existing among themselves, inserted among themselves, inserted after everything before the insertion point and "
+            "before everything after it, with the property's EARLIEST exemption); documented placements (NEW, single EARLIEST "
+            "append, moments inserted intact, batch_insert_into, concatenation) are exact; queries (all_qubits, keys, ==, "
+            "freeze, next/prev_moment_operating_on, are_all_measurements_terminal, earliest_available_moment) equal a freshly "
+            "rebuilt circuit and a brute-force evaluation over the raw moment list.",
+            "Histories <=30 calls, <=5 qubits; insert_into_range / insert_at_frontier / concat_ragged ordered by qubit conflicts "
+            "only (documented as geometric).", "DESIGN.md 5/C05"),
     "C08": ("exploration", "runtime monitor on pow/inverse/controlled/phase_by and the predicates + catalogue eigen-definitions as oracle",
             "g**t is compared with the eigen-decomposition definition (catalogue projectors at exponent e*t) for every EigenGate "
             "family incl. qudits, with closed forms / integer matrix powers / root checks for the others; g.controlled(...) and "
